@@ -256,6 +256,28 @@ def run(prop, tier, seed):
         if res2['harness_errors']:
             res = dict(res, harness_errors=list(res['harness_errors']) + list(res2['harness_errors']))
         res = dict(res, ncases=res['ncases'] + res2['ncases'])
+    class_stats = None
+    class_ids = set()
+    if prop == 'C01':
+        # the class for which progress is proved for every run (model/Class.v, proofs/Progress.v): sequential workflows of
+        # interactive acts, complete / submit / remove on any task, four actions in ten while the scheduler is held.  The
+        # generator checks membership with the extracted frag_nodes; here the implementation must follow the model line by
+        # line, and a stuck state in one of these cases is never a known finding
+        res3 = engine.build(tier, seed, variant='-cls', n=(150 if tier == 'quick' else 2500), gen_args=('cls', 'hold'), idtag='c', with_corpus=False)
+        agree3, dis3, cases3, m3, i3 = engine.compare(res3, kinds | {'BUILD-FAILED', 'CASE-ERROR', 'GONE', 'OUT-OF-FUEL', 'START-FAILED', 'PANIC', 'HUNG'}, strip_site)
+        agree += agree3
+        dis = dis + dis3
+        cases = dict(cases, **cases3)
+        m = dict(m, **m3)
+        i = dict(i, **i3)
+        vi = dict(vi, **run_oracle(res3['cases'], res3['impl']))
+        class_ids = set(cases3)
+        class_stats = {'cases': res3['ncases'], 'in_class': res3['distribution'].get('c01-class', 0), 'outside_class_discarded': res3['distribution'].get('class-miss', 0),
+                       'held_actions': res3['distribution'].get('held', 0), 'agree': agree3, 'harness_errors': res3['harness_errors'],
+                       'ended': len([c for c in cases3 if any(l.startswith('P completed') for l in i3.get(c, []))])}
+        if res3['harness_errors']:
+            res = dict(res, harness_errors=list(res['harness_errors']) + list(res3['harness_errors']))
+        res = dict(res, ncases=res['ncases'] + res3['ncases'])
     violations = []
     broken = []
     nontrivial = 0
@@ -268,6 +290,8 @@ def run(prop, tier, seed):
                 continue
             full = classify(cases[cid], clause, tid, m.get(cid, []))
             cls = full.split('|')[0]
+            if cid in class_ids and clause == 101:
+                cls = '101:in_proved_class'
             violations.append({'class': cls, 'detail': f"case {cid}: {CLAUSE_TEXT.get(clause, clause)} (task #{tid}) [{full}]",
                                'case': {'kind': 'engine', 'case': cases[cid], 'clause': clause, 'task': tid}})
     if prop == 'C11':
@@ -333,6 +357,8 @@ def run(prop, tier, seed):
            'samples': [json.loads(open(res['cases']).readline())]}
     if held_stats:
         cov['held_scheduler_corpus'] = held_stats
+    if class_stats:
+        cov['proved_class_corpus'] = class_stats
     if limit_stats:
         cov['timeout_limit_strings'] = limit_stats
     return {'cov': cov, 'violations': violations, 'broken': broken, 'disagreements': disagreements, 'reference': prop in REFERENCE,
